@@ -154,7 +154,7 @@ Definition iq_router (m : muxcfg) (jp : bytes -> option bytes) (fuel : nat) (n :
         | Some e =>
             if err_eqb e EEOF then
               if bytes_eqb (q_typ q) sv_iq_result then dispatch m fuel q (mkname [] []) st
-              else if m_fixed m then then_ret (fallback_reply q) (Some EOther)
+              else if m_fixed m then then_ret (fallback_reply q) (Some EWrapEOF)
               else HRet (Some EEOF)
             else HRet (Some e)
         | None =>
